@@ -57,7 +57,9 @@ func (gw *eventBasedGateway) run(ctx context.Context, sender tracing.ISenderHand
 				terminationChannels := make(map[schema.IdRef]chan bool)
 				for _, sequenceFlow := range sequences {
 					if idPtr, present := sequenceFlow.Id(); present {
-						terminationChannels[*idPtr] = make(chan bool)
+						// buffered: the winner must not block on an alternative that has
+						// already left (it lost the race with its own event and completed)
+						terminationChannels[*idPtr] = make(chan bool, 1)
 					} else {
 						err := errors.NotFoundError{
 							Expected: sequenceFlow,
